@@ -453,9 +453,12 @@ pub fn run(args: &Args) -> i32 {
                 if off == i32::MIN {
                     exp.push("InvalidUtcOffset");
                 }
+                // two independent conditions (a name of the wrong length that also holds a bad character violates both: either
+                // error is "its specific error"; precedence among simultaneous defects is unspecified, I8)
                 if !len_ok {
                     exp.push("InvalidTimeZoneDesignationLength");
-                } else if !chars_ok {
+                }
+                if !chars_ok {
                     exp.push("InvalidTimeZoneDesignationChar");
                 }
                 let got = LocalTimeType::new(off, code % 2 == 0, Some(name));
